@@ -169,6 +169,16 @@ pub(crate) fn strong_count_of(count: usize) -> u32 {
     count as u32
 }
 
+/// Same for the number of weak owners requested from `Rc::weak_many`.
+#[inline]
+pub(crate) fn weak_count_of(count: usize) -> u32 {
+    assert!(
+        (count as u64) < (1 << WEAK_WIDTH) - 1,
+        "too many weak owners requested for one reference-counted object"
+    );
+    count as u32
+}
+
 impl<T> RcInner<T> {
     #[inline(always)]
     pub(crate) fn alloc(obj: T, init_strong: u32) -> *mut Self {
